@@ -90,7 +90,8 @@ def gen_case(rnd, prop, tier):
     if rnd.random() < 0.4:
         inplace = dict(seed=rnd.getrandbits(32), mode=rnd.choice(['iadd', 'assign']))
     return dict(engine='A', attrs=attrs, sizes=sizes, cliques=cliques, kind=kind, pots=pots, scale=scale, total=total,
-                elims=elims, scheds=scheds, shift=shift, fold=rnd.choice(['harness', 'combine']), fresh_names=rnd.random() < 0.3, inplace=inplace)
+                elims=elims, scheds=scheds, shift=shift, fold=rnd.choice(['harness', 'combine']), fresh_names=rnd.random() < 0.3, inplace=inplace,
+                interleave=rnd.choice([None, None, 'project', 'datavector']))
 
 
 def sample_view(case):
@@ -297,6 +298,18 @@ def run_c01(mbi, case, break_dep=None):
             own = list(model.message_order)
             pots = fold(mbi, case, model)
             ref = {cl: refmodel.marginal(logp, attrs, total, cl) for cl in nodes}
+            if case.get('interleave') and scale <= 50:
+                # another query path runs on the same object (uncached) before exact inference is asked again
+                model.potentials = pots
+                keep = {cl: pots[cl].values.copy() for cl in pots}
+                with np.errstate(all='ignore'):
+                    if case['interleave'] == 'project':
+                        model.project(tuple(attrs))
+                    else:
+                        model.datavector()
+                faults['other-query-path-interleaved'] = faults.get('other-query-path-interleaved', 0) + 1
+                if any(not np.array_equal(pots[cl].values, keep[cl], equal_nan=True) for cl in keep):
+                    viol.append(Violation('bp-input-mutated', 'bp-input-mutated:' + case['interleave'], '%s() changed the model parameters that exact inference is then asked about' % case['interleave']).as_dict())
             for si, s in enumerate(case['scheds']):
                 if s is None:
                     order = own
@@ -403,6 +416,10 @@ def shrink(case, prop):
     if case.get('fresh_names'):
         c = copy.deepcopy(case)
         c['fresh_names'] = False
+        yield c
+    if prop == 'C01' and case.get('interleave'):
+        c = copy.deepcopy(case)
+        c['interleave'] = None
         yield c
     if prop == 'C01' and case.get('inplace'):
         c = copy.deepcopy(case)
